@@ -255,6 +255,9 @@ func init() {
 				{Dir: "down", Tree: "one:R:21000", Timeout: 3},
 				{Dir: "up", Tree: "small3", Protocol: 2, Timeout: 3},
 				{Dir: "down", Tree: "dir", Directory: true, Timeout: 3},
+				// 16 chunks of 10 K (-B 10K): the buffer-size probing ends with the first ack and the window of unacknowledged chunks fills
+				{Dir: "up", Tree: "one:R:120000", Bufsize: 10240, Timeout: 3},
+				{Dir: "down", Tree: "one:R:120000", Bufsize: 10240, Timeout: 3},
 			}
 			if tier == "thorough" {
 				cfgs = append(cfgs,
